@@ -11,6 +11,7 @@ import Indi.Spec.Switch
 import Indi.Spec.BufRun
 import Indi.Spec.Num
 import Indi.Model.B64
+import Indi.Model.Dev
 
 open Indi Indi.Wire
 
@@ -181,8 +182,117 @@ def pBytes : P (List Nat) := do
 def encBytes (l : List Nat) : String :=
   "h" ++ String.join (l.map fun b => String.singleton (hexDigit (b / 16)) ++ String.singleton (hexDigit (b % 16)))
 
+/-! driver component -/
+
+def pValue : P Dev.Value := do
+  let t ← tok
+  match t with
+  | "N" => pure .none
+  | "T" => do let v ← pStr; pure (.text v)
+  | "R" => do let r ← pRat; let i ← pBool; pure (.num r i)
+  | "B" => do let b ← pBytes; let f ← pOpt; pure (.blob b f)
+  | "O" => pure .other
+  | _ => fail
+
+def encValue : Dev.Value → String
+  | .none => "N"
+  | .text v => "T " ++ encStr v
+  | .num r i => "R " ++ encRat r ++ " " ++ encBool i
+  | .blob b f => "B " ++ encBytes b ++ " " ++ encOpt f
+  | .other => "O"
+
+def pKind : P Dev.Kind := do
+  let t ← tok
+  match t with
+  | "text" => pure .text | "number" => pure .number | "switch" => pure .switch
+  | "light" => pure .light | "blob" => pure .blob
+  | _ => fail
+
+def pOptRule : P (Option Switch.Rule) := do
+  let ts ← get
+  match ts with
+  | "~" :: rest => do set rest; pure none
+  | _ => do let r ← pRule; pure (some r)
+
+def pOptValue : P (Option Dev.Value) := do
+  let ts ← get
+  match ts with
+  | "~~" :: rest => do set rest; pure none
+  | _ => do let v ← pValue; pure (some v)
+
+def pElem' : P Dev.Elem := do
+  pLit "L"
+  let name ← pStr; let label ← pStr; let fmt ← pStr; let mn ← pStr; let mx ← pStr; let st ← pStr
+  let v ← pValue; let en ← pBool
+  let wh ← pList (do let i ← pNat; let a ← pBool; let ve ← pBool; pure ({ id := i, async := a, veto := ve } : Dev.WriteH))
+  let ch ← pList (do let i ← pNat; let a ← pBool; pure ({ id := i, async := a } : Dev.ChangeH))
+  let rf ← pOptValue
+  pure { d := { name := name, label := label, format := fmt, min := mn, max := mx, step := st,
+                writeH := wh, changeH := ch, refresh := rf }, value := v, enabled := en }
+
+def pVec : P Dev.Vec := do
+  pLit "V"
+  let name ← pStr; let label ← pStr; let k ← pKind; let perm ← pOpt; let to ← pOpt; let rule ← pOptRule
+  let st ← pStr; let en ← pBool; let es ← pList pElem'
+  pure { name := name, label := label, kind := k, perm := perm, timeout := to, rule := rule, state := st, enabled := en, elems := es }
+
+def pGroup : P Dev.Group := do
+  pLit "G"
+  let name ← pStr; let en ← pBool; let vs ← pList pVec
+  pure { name := name, enabled := en, vecs := vs }
+
+def pDevice : P Dev.Device := do
+  pLit "DEV"
+  let name ← pStr; let gs ← pList pGroup
+  pure { name := name, groups := gs }
+
+def pAddr : P Dev.Addr := do
+  let g ← pNat; let v ← pNat; let e ← pNat
+  pure ⟨g, v, e⟩
+
+def pDevOp : P Dev.Op := do
+  let t ← tok
+  match t with
+  | "a" => do let a ← pAddr; let v ← pValue; pure (.assign a v)
+  | "s" => do let a ← pAddr; let v ← pValue; pure (.setValue a v)
+  | "st" => do let g ← pNat; let v ← pNat; let s ← pOpt; pure (.state g v s)
+  | "ev" => do let g ← pNat; let v ← pNat; let b ← pBool; pure (.enableVec g v b)
+  | "eg" => do let g ← pNat; let b ← pBool; pure (.enableGroup g b)
+  | "ee" => do let a ← pAddr; let b ← pBool; pure (.enableElem a b)
+  | "c" => do let m ← pMsg; pure (.client m)
+  | _ => fail
+
+def encExc : Option Dev.Exc → String
+  | none => "ok"
+  | some .assertionError => "AssertionError"
+  | some .valueError => "ValueError"
+  | some .typeError => "TypeError"
+  | some .keyError => "KeyError"
+  | some .other => "OtherError"
+
+def encCall (c : Dev.Call) : String :=
+  "h" ++ toString c.handler ++ " " ++ (match c.kind with | .write => "W" | .change => "C") ++ " " ++
+    encValue c.old ++ " " ++ encValue c.new ++ " " ++ encValue c.seen
+
+def encDevState (d : Dev.Device) : String :=
+  String.intercalate " " (d.groups.map fun g => "g" ++ encBool g.enabled ++ " " ++
+    String.intercalate " " (g.vecs.map fun v => "v" ++ encBool v.enabled ++ " " ++ encStr v.state ++ " " ++
+      String.intercalate " " (v.elems.map fun e => "e" ++ encBool e.enabled ++ " " ++ encValue e.value)))
+
+def encDevResult (r : Dev.Result) : String :=
+  encExc r.exc ++ " msgs " ++ encList encMsg r.msgs ++ " calls " ++ encList encCall r.calls ++
+    " tasks " ++ encList encCall r.tasks ++ " state " ++ encDevState r.dev
+
+def devRun : Dev.Device → List Dev.Op → List String
+  | _, [] => []
+  | d, op :: rest => let r := Dev.step d op; encDevResult r :: devRun r.dev rest
+
 def handle (ts : List String) : String :=
   match ts with
+  | "dev" :: "run" :: rest =>
+    match runP (do let d ← pDevice; let ops ← pList pDevOp; pure (d, ops)) rest with
+    | some (d, ops) => String.intercalate " | " (devRun d ops)
+    | none => "bad-op"
   | "num" :: "render" :: rest =>
     match runP (do let f ← pStr; let x ← pRat; pure (f, x)) rest with
     | some (f, x) => encRender (Num.numToStr Num.exactIEEE f x)
